@@ -329,18 +329,30 @@ class Struct(metaclass=MetaStruct):
     def _update(self, value):
         # check if direct copy is possible: not with references inside, their
         # offsets are relative to the position of the reference
+        # and only with the same inner layout: handles and views cache the
+        # offsets of the dynamic fields, which are fixed at creation
         if (
             isinstance(value, self.__class__)
             and value._size == self._size
             and not self._has_refs
+            and all(
+                value._offsets[ff.index] == self._offsets[ff.index]
+                for ff in self._d_fields
+                if ff.is_reference
+            )
         ):
             self._buffer.update_from_xbuffer(
                 self._offset, value._buffer, value._offset, value._size
             )
-        else:
-            for field in self._fields:
-                if field.name in value:
-                    field.__set__(self, value[field.name])
+        else:  # field by field, all or nothing
+            saved = self._buffer.to_bytearray(self._offset, self._size)
+            try:
+                for field in self._fields:
+                    if field.name in value:
+                        field.__set__(self, value[field.name])
+            except Exception:
+                self._buffer.update_from_buffer(self._offset, saved)
+                raise
 
     def __init__(
         self, *args, _context=None, _buffer=None, _offset=None, **kwargs
